@@ -259,8 +259,10 @@ PROPS = {
                     "accepted in full, a call that does not fit fails with ErrOverflow and closes, an empty queue means left = 0; differential "
                     "correspondence on the counter and queue shape plus bound/accounting oracles on the implementation alone",
             "note": "queued file ranges (Sendfile) are not held bytes and are not counted, as in the code. Writev is assumed to pass <= IOV_MAX "
-                    "non-empty slices. Sendfile's acceptance (c17_fits_accepted_sendfile) assumes dup(2) succeeds and no fatal kernel answer "
-                    "(with a failing dup the call fails although it fits: c01_sendfile_nodup; the oracle c17-fits exempts EMFILE)",
+                    "non-empty slices. Sendfile's acceptance (c17_fits_accepted_sendfile) assumes dup(2) succeeds and no fatal kernel answer; "
+                    "with a failing dup the call may fail although it fits (the oracle c17-fits exempts EMFILE) and what holds instead is proved "
+                    "on the model: c17_fits_sendfile_nodup_partial (never the overflow error, n = whole range or 0, and while the conn stays "
+                    "open queue and counter are exactly as before), c17_inv_nodup (accounting and bound hold after it)",
             "technique": _TECH},
         "lean": ["NbioVerif.Properties.C17"], "drivers": ["conndrv"], "harness": ["hconn"],
         "runs": [_run(["n", "err", "ow", "cb", "rc", "closed", "left", "wl"])],
